@@ -141,6 +141,37 @@ NEEDS = {
     "C19h": "--lowercase_intrinsics on the command line and false in the file, then any answer with an intrinsic",
     "C20g": "a submodule parent ring of length >= 2 without any IMPLICIT statement and a procedure in a ring member",
     "C20h": "a procedure with two dummy procedures whose interface leads back to it",
+    "C01i": "the server sends a request to the client (client/registerCapability) and waits for the reply by id "
+            "alone; a pipelined client request with the same id is taken for the reply and never answered",
+    "C01j": "a failing request whose id is 0 or '' (falsy): the error response is skipped",
+    "C02i": "workspace/didChangeWatchedFiles for an open, clean document whose file another tool rewrote",
+    "C02j": "a closed file replaced by other contents of the same size and time stamp, then didOpen",
+    "C03i": "a statement label or DO label of more than 4300 digits (int() limit of CPython 3.12)",
+    "C03j": "a didChange text containing half a surrogate pair (hashing encodes it as UTF-8)",
+    "C09i": "a document containing a character str.splitlines() treats as a line break (FF, VT, NEL, LS, PS, ...)",
+    "C09j": "document versions restarting after close/re-open below an earlier version, then a shrinking change",
+    "C10i": "a file whose diagnostics depend on a module that is deleted and closed, no re-parse in between, then "
+            "diagnostics of the unchanged file again",
+    "C10j": "a declarations-only INCLUDE fragment with a type that the includer extends; the fragment edited and "
+            "saved last (no unit-exporting file re-parsed afterwards)",
+    "C15i": "a workspace module named like a bundled intrinsic module (omp_lib, iso_c_binding, ...)",
+    "C15j": "one worker versus several: preprocessed sources in two directories, a header in the other one's "
+            "directory (include_dirs mutated in place without the pickling round trip)",
+    "C16i": "initialize with an integer processId, two messages arriving in one read, a client that then waits: "
+            "select() on the descriptor cannot see what the buffered reader already holds",
+    "C16j": "a path with a literal percent escape that does not exist (deleted) while its once-more-decoded "
+            "sibling exists",
+    "C17i": "a non-preprocessed source of at least 5000 lines at start-up (pickle cache written into the root, "
+            "loaded on the next start)",
+    "C17j": "recursion_limit above 1000 (configuration file or command line): a crash log is created in the root",
+    "C18i": "a literal source_dirs/excl_paths entry with a '..' segment or through a symlinked directory",
+    "C18j": "a source file whose name is not in Unicode NFC",
+    "C19i": "max_line_length on the command line and in the file with different values, max_comment_line_length "
+            "given nowhere, a comment line between the two limits",
+    "C19j": "a wrong-typed pp_suffixes in the file with --pp_suffixes absent (type check skipped for None default)",
+    "C20i": "an EXTENDS ring plus a type off the ring, completion inside its still open EXTENDS( clause",
+    "C20j": "a function whose result is a procedure pointer declared with the function itself, and a member "
+            "access or ASSOCIATE name based on a call of it",
     "C20b": "a '=>' link cycle across two modules that USE each other, a didChange of the file whose link was "
             "refused at start-up, then a query",
 }
